@@ -297,7 +297,7 @@ theorem C08_forward_only (s : Sys) (l1 l2 : List Step) (inv : ClaimInv s.hub) (h
             intro z m' z' ms hp hx
             cases handle_touch z z' m' ms hx with
             | none h _ _ _ => rw [h.hub]; exact hp
-            | hub s1 sender funds hm _ _ _ hx' b t r d g =>
+            | hub s1 sender funds hm _ _ _ _ hx' b t r d g =>
               have st := C07_hub_step _ _ _ _ _ _ _ hp.1 hp.2.1 hx'
               exact ⟨st.1, st.2, hp.2.2.trans (C08_hub_step_forward _ _ _ _ _ _ _ hp.1 hp.2.1 hx')⟩
             | bsei s1 sender funds tm _ _ hx' h t r d g => rw [h]; exact hp
